@@ -16,6 +16,19 @@ for r in res:
     for o in r["obligations"]:
         if o["status"] != "discharged":
             bad.append((o["name"], o["status"]))
+repo, reg, eng = verify.setup()
+import lemmas, structural
+for P in props.PROPERTIES.values():
+    for l in P.get("lemmas", []):
+        o = lemmas.run(l, eng, 20)
+        names.add(o["name"])
+        if o["status"] != "discharged":
+            bad.append((o["name"], o["status"]))
+    for sname in P.get("structural", []):
+        o = structural.run(sname, repo, reg, eng)
+        names.add(o["name"])
+        if o["status"] != "discharged":
+            bad.append((o["name"], o["status"]))
 failing = {b[0] for b in bad}
 out = {"obligations": sorted(n for n in names if n not in failing), "not_discharged_at_baseline": sorted(failing)}
 os.makedirs("baseline", exist_ok=True)
